@@ -113,6 +113,12 @@ package api
 //@ func HTTP.getMessages
 //@   assume@after OutputStream.Get#0 : stored-batch: callres1 ==> batchShape(callres0) && len(callres0) >= 1 && callres0[0].Id.Id == lastSeen.Id
 //@   assume@after OutputStream.GetNext#0 : stored-batch: batchShape(callres)
+// the two decisions that could lose messages are exactly the intended ones: the remainder of the batch
+// named by lastseen is offered whenever there is one, and a batch is skipped as old only when its id is
+// smaller than the resume position (branches are addressed by position: #1 is the second test of the
+// first if statement, #6 the replay guard inside the loop)
+//@   assert@if #1 : remainder-offered: callarg0 <==> (lastSeen.Reply < len(msgs))
+//@   assert@if #6 : skip-only-older: callarg0 <==> (msgs[0].Id.Id < lastSeen.Id)
 //@   assert@send msgschan#0 : remainder: forall k int :: 0 <= k && k < len(callarg0) ==> callarg0[k].Id.Id == lastSeen.Id && callarg0[k].Id.Reply > lastSeen.Reply
 //@   assert@send msgschan#1 : newer: forall k int :: 0 <= k && k < len(callarg0) ==> callarg0[k].Id.Id > athead(lastSeen).Id || (callarg0[k].Id.Id == athead(lastSeen).Id && callarg0[k].Id.Reply > athead(lastSeen).Reply)
 //@   assert@send msgschan#1 : advanced: len(callarg0) >= 1 && lastSeen == callarg0[0].Id
